@@ -185,7 +185,7 @@ func (w *Witness) Update(ctx context.Context, logID string, oldSize uint64, next
 		// checkpoint as trust-on-first-use (TOFU).
 		if status.Code(err) == codes.NotFound {
 			// Store a witness cosigned version of the checkpoint.
-			signed, err := w.signChkpt(nextNote)
+			signed, err := w.signChkpt(nextNote, logID)
 			if err != nil {
 				return nil, fmt.Errorf("couldn't sign input checkpoint: %v", err)
 			}
@@ -236,7 +236,7 @@ func (w *Witness) Update(ctx context.Context, logID string, oldSize uint64, next
 		if len(cProof) > 0 {
 			return nil, fmt.Errorf("oldSize=0 but non-zero proof supplied")
 		}
-		signed, err := w.signChkpt(nextNote)
+		signed, err := w.signChkpt(nextNote, logID)
 		if err != nil {
 			return nil, fmt.Errorf("couldn't sign input checkpoint: %v", err)
 		}
@@ -255,7 +255,7 @@ func (w *Witness) Update(ctx context.Context, logID string, oldSize uint64, next
 		return prevRaw, ErrInvalidProof
 	}
 	// If the consistency proof is good we store the witness cosigned nextRaw.
-	signed, err := w.signChkpt(nextNote)
+	signed, err := w.signChkpt(nextNote, logID)
 	if err != nil {
 		return nil, fmt.Errorf("couldn't sign input checkpoint: %v", err)
 	}
@@ -267,10 +267,16 @@ func (w *Witness) Update(ctx context.Context, logID string, oldSize uint64, next
 }
 
 // signChkpt adds the witness' signature to a checkpoint.
-func (w *Witness) signChkpt(n *note.Note) ([]byte, error) {
+func (w *Witness) signChkpt(n *note.Note, logID string) ([]byte, error) {
 	cosigned, err := note.Sign(n, w.Signers...)
 	if err != nil {
 		return nil, fmt.Errorf("couldn't sign checkpoint: %v", err)
+	}
+	// The cosigned checkpoint is stored and re-opened at the start of the next update for this log,
+	// so never release one which can't be read back (e.g. because the witness' signature lines push
+	// the note past the number of signatures the note format allows).
+	if _, _, err := w.parse(cosigned, logID); err != nil {
+		return nil, fmt.Errorf("cosigned checkpoint would be unreadable: %v", err)
 	}
 	return cosigned, nil
 }
